@@ -363,7 +363,26 @@ func c05(c *Ctx) {
 				}
 			}
 			c.Expect(len(ends) >= 1, nil, f, pr.fn+":end-of-stream-signalled", "END_STREAM on a DATA frame is not signalled to the stream")
+			// the end of the stream is signalled only when the frame carries END_STREAM
+			for _, w := range callsIn(f, AnyCM(Callee(tr, pr.wr), Callee(tr, "Stream.write"))) {
+				if w == dataW {
+					continue
+				}
+				c.MustFact(w, pr.fn+":end-signalled-only-for-END_STREAM", Truth(CallRes(Callee(tr, "parsedDataFrame.StreamEnded"), 0), true))
+			}
 		}
+	})
+	c.Ob("read-side-closed-only-at-END_STREAM", "R2", "server: a new stream is created with its read side already closed only when its HEADERS frame carries END_STREAM (a stream wrongly marked so has every later DATA frame refused)", 1, func() {
+		oh := c.fn(tr, "http2Server.operateHeaders")
+		rd := ConstOfObj(c.konst(tr, "streamReadDone"))
+		n := 0
+		for _, st := range storesToField(oh, c.field(tr, "Stream", "state")) {
+			if rd(st.Val) {
+				n++
+				c.MustFact(st, "read-done-only-for-END_STREAM", Truth(CallRes(CalleeX(h2, "HeadersFrame.StreamEnded"), 0), true))
+			}
+		}
+		c.Expect(n == 1, nil, oh, "half-closed-streams-marked", "a request that ends with its HEADERS frame is not marked read-done")
 	})
 	c.Ob("get-then-load", "R3", "both receive helpers call load() before anything else so that the next queued item moves to the channel; every reader passes the received item to them", 6, func() {
 		for _, name := range []string{"recvBufferReader.readAdditional", "recvBufferReader.readMessageHeaderAdditional"} {
